@@ -973,3 +973,14 @@ Theorem ixfr_done_is_denotation_any : forall fin z0 ser ws rest z' n,
     XfrInversionGen.m_secs z0 secs = Ok z1 /\ XfrInversionGen.m_soa z1 b = Ok z'.
 Proof. exact XfrInversionGen.ixfr_done_is_denotation_any. Qed.
 Print Assumptions ixfr_done_is_denotation_any.
+
+(* ... and conversely (so, for streams whose final SOA is the last record of its message, a proper IXFR completes
+   IF AND ONLY IF the stream has this form and every operation succeeds, and the zone is then the result) *)
+Theorem ixfr_sections_applied_any : forall fin secs z0 z1 z' ser ws,
+  secs <> [] -> XfrInversionGen.skel_g ser fin secs -> XfrSections.end_serial ser secs = v_serial fin ->
+  v_serial fin <> ser -> serial_lt (v_serial fin) ser = false ->
+  XfrInversionGen.m_secs z0 secs = Ok z1 -> XfrInversionGen.m_soa z1 fin = Ok z' ->
+  chunking tIXFR (soa_rr fin :: XfrSections.secs_stream secs ++ [soa_rr fin]) ws ->
+  exists n, inbound_xfr z0 tIXFR (Some ser) false ws = (Done z', n).
+Proof. exact XfrInversionGen.ixfr_sections_applied_any. Qed.
+Print Assumptions ixfr_sections_applied_any.
